@@ -618,6 +618,56 @@ def _q8(ctx, R):
     R.floor("loops over the patterns (Q8)", 14)
 
 
+def _q9(ctx, R):
+    """the registry of accelerated lookups: a registration that is refused leaves the registry as it was (may-dataflow: no store
+    to module state on a path that goes on to raise), and lookup() dispatches to what is registered under the key it was asked for"""
+    from ..cfg import cfg_of, forward, node_exprs
+    R.rule("Q9", "the lookup registry is not modified on a path that ends in a refusal")
+    P = ctx.P
+    mod = P.module("spydrnet/global_state/global_service.py")
+    mod_names = {t.id for st in mod.tree.body if isinstance(st, ast.Assign) for t in st.targets if isinstance(t, ast.Name)}
+    n = 0
+    for fn, f in sorted(mod.functions.items()):
+        if not any(isinstance(x, ast.Raise) for x in walk_local(f.node)):
+            continue
+        n += 1
+        globs = {g for x in walk_local(f.node) if isinstance(x, ast.Global) for g in x.names}
+        cfg = cfg_of(f.node)
+
+        def writes(node):
+            exprs, targets = node_exprs(node)
+            out = []
+            for t in targets:
+                if isinstance(t, ast.Subscript) and isinstance(t.value, ast.Name) and t.value.id in mod_names:
+                    out.append(t)
+                if isinstance(t, ast.Name) and t.id in globs:
+                    out.append(t)
+            for e in exprs:
+                for c in ast.walk(e):
+                    if isinstance(c, ast.Call) and isinstance(c.func, ast.Attribute) and isinstance(c.func.value, ast.Name) and c.func.value.id in mod_names \
+                            and c.func.attr in ("update", "pop", "clear", "setdefault", "popitem", "append", "add", "remove", "discard"):
+                        out.append(c)
+            return out
+
+        def transfer(node, st):
+            w = writes(node)
+            return st | frozenset(short(x, 40) for x in w) if w else st
+
+        state = forward(cfg, frozenset(), transfer, lambda a, b: a | b)
+        bad = None
+        for node in cfg.nodes:
+            if node.kind == "raisestmt" and state.get(node.id):
+                bad = (node, sorted(state[node.id])[0])
+        if bad:
+            R.bad("Q9", "%s|write before refusal" % f.key, f.loc(bad[0].ast),
+                  "%s modifies the registry (`%s`) and then refuses the call: the refused registration has already replaced the lookup that "
+                  "exact-name queries use, so they stop agreeing with the scan" % (f.qualname, bad[1]))
+        else:
+            R.ok("Q9", "%s: nothing is stored before it refuses" % f.qualname, f.loc())
+    R.count("registry functions that can refuse (Q9)", n)
+    R.floor("registry functions that can refuse (Q9)", 1)
+
+
 @register("C13",
           "Static analysis of the 13 sibling query modules, patterns.py and the lookup service: Q1 argument plumbing at every call "
           "between family members (same-named parameters, lookup element type vs enclosing parent kind); Q2 the matcher's case / regex "
@@ -637,3 +687,4 @@ def check_c13(ctx, R):
     _q2_q4(ctx, R)
     _q3_q6(ctx, R)
     _q5(ctx, R)
+    _q9(ctx, R)
